@@ -61,6 +61,10 @@ def mutate_once(a, D, leaf=scalars):
         return st.one_of(
             st.just(a), D,
             st.fixed_dictionaries({k: mutate_once(v, D, leaf) for k, v in a.items()}),
+            # the values of two keys swapped (pairing across keys becomes cheaper than editing both values)
+            st.builds(lambda i, j: (lambda ks: {k: (a[ks[j % len(ks)]] if k == ks[i % len(ks)] else
+                                                    (a[ks[i % len(ks)]] if k == ks[j % len(ks)] else v)) for k, v in a.items()}
+                                    )(list(a)) if a else a, st.integers(0, 10), st.integers(0, 10)),
             # same-length rename: one character of one key substituted (a partial string edit of equal length)
             st.builds(lambda i, j: {(_sub_char(kk, j) if n == i % max(len(a), 1) and _sub_char(kk, j) not in a else kk): vv
                                     for n, (kk, vv) in enumerate(a.items())}, st.integers(0, 10), st.integers(0, 10)),
